@@ -503,14 +503,19 @@ def parse_delimited_sequence(
                 before.append(empty_line)
 
     prev_content: Node | None = None
+    # Comments may be attached inline to the previous item only while every
+    # comment since that item was inline; otherwise a later same-row comment
+    # would jump ahead of the own-line comment it follows.
+    inline_run = False
     for child in content_nodes:
         if child.type == "comment":
-            if can_inline_comment(prev_content, child, items):
+            if inline_run and can_inline_comment(prev_content, child, items):
                 push_gap(prev_content, child)
                 comment_expr = Comment.from_cst(child)
                 comment_expr.inline = True
                 attach_inline_comment(items[-1], comment_expr)
             else:
+                inline_run = False
                 append_comment_between(before, parent, prev_content, child)
             prev_content = child
             continue
@@ -520,6 +525,7 @@ def parse_delimited_sequence(
         if item is not None:
             items.append(item)
             before = []
+        inline_run = True
         prev_content = child
 
     if before:
